@@ -436,7 +436,7 @@ def add_extra(nc, specs):
     for sp in specs:
         for d in sp["dims"]:
             if d not in nc.dimensions:
-                nc.createDimension(d, 3)
+                nc.createDimension(d, (sp.get("dim_sizes") or {}).get(d, 3))
         dt = {"f8": "f8", "S1": "S1", "str": str}[sp.get("dtype", "f8")]
         v = nc.createVariable(sp["name"], dt, tuple(sp["dims"]))
         for a, val in (sp.get("attrs") or {}).items():
@@ -451,8 +451,10 @@ def add_extra(nc, specs):
                 v[0] = "s0"
         elif dt == "S1":
             v[...] = np.array([b"a"] * n, dtype="S1").reshape(shape)
-        else:
+        elif shape:
             v[...] = (np.arange(n, dtype="f8") + 1).reshape(shape)
+        else:
+            v[...] = 1.0
 
 
 def make_base(spec, scratch):
